@@ -778,6 +778,14 @@ func (n *RegexNode) eliminateEndingBacktracking() {
 			// an Atomic one if its grandparent is already Atomic.
 			// e.g. [xyz](?:abc|def) => [xyz](?>abc|def)
 
+			// A balancing group (?<a-b>...) fails when it closes if group b holds no capture at
+			// that point, and the matcher then backtracks into the group's contents to find another
+			// way to match them, so nothing inside a balancing group is at the end of the expression.
+			// e.g. (?<a-b>x|(?<b>x)) must still be able to try its second branch.
+			if node.T == NtCapture && node.N != -1 {
+				break
+			}
+
 			// validate grandparent isn't atomic
 			existingChild := node.Children[len(node.Children)-1]
 			if (existingChild.T == NtAlternate || existingChild.T == NtBackRefCond ||
